@@ -5,13 +5,6 @@ failed-hash branch of `handlePieceWriteDone`, `writerRun`.
 -/
 namespace Rain.Loop
 
-theorem find?_none_filter {α} (l : List α) (p : α → Bool) (h : l.find? p = none) :
-    l.filter (fun x => !p x) = l := by
-  rw [List.find?_eq_none] at h
-  rw [List.filter_eq_self]
-  intro a ha
-  simpa using h a ha
-
 /-- After `closePeer k` no connected peer has key `k`. -/
 theorem closePeer_no_peer (s : St) (k : Nat) : ∀ q ∈ (s.closePeer k).peers, q.k ≠ k := by
   unfold St.closePeer
@@ -24,14 +17,6 @@ theorem closePeer_no_peer (s : St) (k : Nat) : ∀ q ∈ (s.closePeer k).peers, 
   · dsimp only
     intro q hq
     split at hq <;> simp at hq <;> exact hq.2
-
-theorem closePeer_peers_subset (s : St) (k : Nat) : ∀ q ∈ (s.closePeer k).peers, q ∈ s.peers := by
-  unfold St.closePeer
-  split
-  · exact fun q hq => hq
-  · dsimp only
-    intro q hq
-    split at hq <;> simp at hq <;> exact hq.1
 
 /-! ### `writerRun` on a job whose hash failed -/
 
